@@ -286,6 +286,7 @@ func c16(r *Run) {
 	// the stream reader's Peek/Next results are served from the LinkBuffer it fills: a block that Release gave back to the pool
 	// must not stay referenced by the buffer, or the next fill (which gets that block again) and the next Peek overwrite each other
 	r.borrow([]string{"C03.R2:no-reference-kept"}, "C03.R2", "C16.R5", func() { c03(r) })
+	r.borrow([]string{"C03.R4:private-copy-is-heap"}, "C03.R4", "C16.R9", func() { c03(r) })
 	// ... and the LinkBuffer mechanisms its Slice / ReadByte / Peek results rest on (C02.R5 reference counts, C01.R2/R3 accounting)
 	r.borrow([]string{"C02.R5:Refer-"}, "C02.R5", "C16.R6", func() { c02(r) })
 	r.borrow([]string{"C02.R1:exposed-before-escape", "C02.R1:marked-node-is-handed-out"}, "C02.R1", "C16.R8", func() { c02(r) })
